@@ -144,7 +144,7 @@ func c02(r *Run) {
 		}
 	}
 	if nEsc < 6 {
-		broken("ANCHOR-LOST C02: only %d escaping node-memory sites", nEsc)
+		r.absentf(" C02: only %d escaping node-memory sites", nEsc)
 	}
 
 	// ---- R2 recycling respects exposure --------------------------------------------------------------
